@@ -10,8 +10,45 @@ fn key(id: u64, variant: usize) -> Key {
     if variant % 2 == 0 { Key::from_parts(name, vec![Label::new("l", "v")]) } else { Key::from_parts(name.as_str().to_string(), vec![Label::new(String::from("l"), String::from("v"))]) }
 }
 
+/// keys whose full 64-bit `hashable()` collides although they differ (legal for a generic Hashable key type)
+#[derive(Clone, PartialEq, Eq, Debug)]
+struct Colliding(u32);
+impl std::hash::Hash for Colliding {
+    fn hash<H: std::hash::Hasher>(&self, h: &mut H) { h.write_u64(7); }
+}
+
+/// sequential scenarios that need a table to grow (many keys) or hashes to collide (a key type with a constant hash)
+fn sequential_big(plan: &Plan) -> ! {
+    use metrics_util::DefaultHashable;
+    let mut v: Vec<String> = vec![];
+    // growth: register many keys, then look every one of them up again: it must still be the same storage
+    let reg: Registry<Key, AtomicStorage> = Registry::new(AtomicStorage);
+    let n = 20000u64;
+    let mut first: Vec<usize> = vec![];
+    for i in 0..n { first.push(reg.get_or_create_counter(&key(i, 0), |c| { c.fetch_add(1, std::sync::atomic::Ordering::SeqCst); Arc::as_ptr(c) as usize })); }
+    let mut moved = 0;
+    let mut missing = 0;
+    for i in 0..n {
+        let again = reg.get_or_create_counter(&key(i, 1), |c| Arc::as_ptr(c) as usize);
+        if again != first[i as usize] { moved += 1; }
+        if reg.get_counter(&key(i, 0)).map(|c| c.load(std::sync::atomic::Ordering::SeqCst)) != Some(1) { missing += 1; }
+    }
+    println!("{} keys registered; second get_or_create returned another storage for {} of them; get() disagrees for {}", n, moved, missing);
+    if moved > 0 || missing > 0 { v.push("one_storage_for_counter_k1".to_string()); v.push("created_at_most_once_counter_k1".to_string()); v.push("get_after_create_finds_the_storage".to_string()); }
+    // collisions
+    let reg2: Registry<DefaultHashable<Colliding>, AtomicStorage> = Registry::new(AtomicStorage);
+    let (k1, k2) = (DefaultHashable(Colliding(1)), DefaultHashable(Colliding(2)));
+    let a = reg2.get_or_create_counter(&k1, |c| Arc::as_ptr(c) as usize);
+    let b = reg2.get_or_create_counter(&k2, |c| Arc::as_ptr(c) as usize);
+    println!("colliding keys: storages {:#x} / {:#x}; get(k2) present: {}", a, b, reg2.get_counter(&k2).is_some());
+    if a == b || reg2.get_counter(&k2).is_none() { v.push("different_keys_or_kinds_never_share_storage".to_string()); v.push("get_after_create_finds_the_storage".to_string()); }
+    let vv: Vec<&str> = v.iter().map(|s| s.as_str()).collect();
+    finish(&vv, plan)
+}
+
 fn main() {
     let plan = load_plan(&std::env::args().nth(1).expect("plan"));
+    if plan.scenario.starts_with("c06_seq_goc_k1_k2") { sequential_big(&plan); }
     let reg: Arc<Registry<Key, AtomicStorage>> = Arc::new(Registry::new(AtomicStorage));
     install_filtered(plan.sched.clone(), &["rwlock_read", "rwlock_write"]);
     // (tid, idx, op, kind, key, storage address or 0/1 result)
